@@ -6,6 +6,7 @@
 -/
 import FileD.Prelude.Tok
 import FileD.Drv.PoolTrace
+import FileD.Drv.StreamTrace
 import FileD.Spec.C04
 import FileD.Spec.C05
 namespace FileD.DrvC04
@@ -17,8 +18,22 @@ def handlePool (args impl : List String) : Option (String × String) := do
   let p := if SpecC04.holds isStd cap bs && SpecC05.holds cap bs then "ok" else "fail"
   pure (m, p)
 
+/-- c04.stream <nprocs> <nstreams> <script…> | <trace tokens…> [unsettled] -/
+def handleStream (args impl : List String) : Option (String × String) :=
+  match args with
+  | np :: ns :: _ => do
+    let np ← Tok.nat? np; let ns ← Tok.nat? ns
+    let settled := impl.getLast? ≠ some "unsettled"
+    let toks := (if settled then impl else impl.dropLast).filter (· ≠ "-")
+    match Drv.StreamTrace.parseOps (toks.length + 1) toks with
+    | none => pure ("bad-impl", "bad-impl")
+    | some ops =>
+      pure (Drv.StreamTrace.replay (Stream.init ns np) ops, SpecC04.streamVerdict ns ops settled)
+  | _ => none
+
 def handle (cmd : String) (args impl : List String) : Option (String × String) :=
   if cmd = "c04.pool" then handlePool args impl
+  else if cmd = "c04.stream" then handleStream args impl
   else none
 
 end FileD.DrvC04
